@@ -360,16 +360,20 @@ func (b *Buffer) grow(n int) {
 
 	// TODO(chef): 可以先尝试是否能挪出空闲位置
 
+	// 翻倍直到能容纳下已有数据以及新写入的n个字节。
+	// 只翻倍一次是不够的，比如带有很长url参数的流名称，一次写入就会超过翻倍后的大小
 	var newLen int
 	if cap(b.core) == 0 {
 		newLen = 128
 	} else {
 		newLen = cap(b.core) * 2
 	}
+	for newLen-b.writePos < n {
+		newLen *= 2
+	}
 	buf := make([]byte, newLen)
 	Log.Debugf("Buffer::grow. need=%d, old len=%d, cap=%d, new len=%d", n, b.Len(), cap(b.core), newLen)
-	copy(buf, b.core[b.readPos:b.writePos])
+	// 注意，readPos之前可能存在通过ModWritePos预留出来的空间(比如chunk header)，整体拷贝，读写位置保持不变
+	copy(buf, b.core[:b.writePos])
 	b.core = buf
-	b.readPos = 0
-	b.writePos = b.writePos - b.readPos
 }
